@@ -63,7 +63,7 @@ PROPS = {
         'streams': ['l6-sched', 'l6-conc', 'l6-http'],
         'trusted_base': SERVER_TB + ['scheduling wrapper around WireFileRepository in the verif-tagged test hook (grant/ack per repository call)', 'porcupine v1.3.0 linearizability checker for the stress histories (supports the search only)'],
         'assumptions': COMMON_ASSUME + ['sync.Mutex gives mutual exclusion: each repository method is one atomic step (obligation repo_methods_locked)',
-                                        'the linearizability theorem covers handlers with a single repository call; add-message (getFile then saveFile) is refuted in Findings/C16.v and recorded as a known finding'],
+                                        'the linearizability theorems (any interleaving; real-time order with arrivals) cover handlers with a single repository call; add-message (getFile then saveFile) is refuted in Findings/C16.v and recorded as a known finding'],
     },
     'C17': {
         'props': ['theories/Props/C17.v'], 'deps': SERVER_DEPS + ['theories/Theory/WriterFacts.v', 'theories/Theory/ReaderFacts.v'],
